@@ -58,5 +58,23 @@ def scratch_home():
 def workdir(name):
     """a fresh sub-directory of the scratch home for one history"""
     home = scratch_home()
+    if _state.get('worker_pid') == os.getpid():
+        home = _state['worker_home']
     d = tempfile.mkdtemp(prefix=name + '-', dir=home)
     return d
+
+
+def worker_home():
+    """a per-process HOME below the parent's scratch home (forked pool workers must not share ~/.sse);
+    the parent removes the whole tree at exit"""
+    parent = scratch_home()
+    if os.getpid() == _state['pid']:
+        return parent
+    if _state.get('worker_pid') == os.getpid():
+        return _state['worker_home']
+    home = os.path.join(parent, 'w%d' % os.getpid())
+    os.makedirs(home, exist_ok=True)
+    os.environ['HOME'] = home
+    _state['worker_pid'] = os.getpid()
+    _state['worker_home'] = home
+    return home
